@@ -4,11 +4,11 @@ use rayon::prelude::*;
 use std::sync::atomic::{AtomicUsize, Ordering};
 use std::sync::Mutex;
 
-pub const PROGRAMS: [&str; 16] = [
+pub const PROGRAMS: [&str; 17] = [
     "ordered_collect", "nested_join", "par_bridge_once_each", "build_global_twice", "implicit_then_build_global",
     "install_pool", "panic_propagation", "collect_into_vec_enumerate", "for_each_count", "par_iter_mut",
     "hashbrown_par_iter", "ndarray_axis_par", "configured_global_size", "build_global_after_join",
-    "nested_pools", "panic_in_install",
+    "nested_pools", "panic_in_install", "pool_dropped_while_unwinding",
 ];
 
 fn fib(n: u32) -> u64 {
@@ -117,6 +117,16 @@ pub fn run(name: &str) -> String {
             let pool = rayon::ThreadPoolBuilder::new().num_threads(2).build().unwrap();
             let r = std::panic::catch_unwind(std::panic::AssertUnwindSafe(|| pool.install(|| (0..50).into_par_iter().for_each(|x| if x == 7 { panic!("in-pool") }))));
             let after: i32 = pool.install(|| (0..10).into_par_iter().sum());
+            format!("err={} after={after}", r.is_err())
+        }
+        "pool_dropped_while_unwinding" => {
+            // the shape of ska lo: a local pool whose handle is dropped by the unwinding of a panic
+            // that one of its workers raised
+            let r = std::panic::catch_unwind(|| {
+                let pool = rayon::ThreadPoolBuilder::new().num_threads(3).build().unwrap();
+                pool.install(|| (0..200).into_par_iter().for_each(|x| if x == 157 { panic!("in-pool") }));
+            });
+            let after: i32 = (0..10).into_par_iter().sum();
             format!("err={} after={after}", r.is_err())
         }
         _ => "unknown program".to_string(),
